@@ -197,8 +197,22 @@ func (m *mux) ensureContext(r *http.Request) *chi.Context {
 	if ctx.RoutePattern() != "" {
 		return ctx // already initialized
 	}
-	if !m.Router.Match(ctx, r.Method, r.URL.Path) {
+	// The request has not been routed yet (middleware): resolve the route on a
+	// scratch context so that the context chi fills when it routes the request
+	// is left untouched, using the same path chi is going to use.
+	path := ctx.RoutePath
+	if path == "" {
+		path = r.URL.RawPath
+	}
+	if path == "" {
+		path = r.URL.Path
+	}
+	if path == "" {
+		path = "/"
+	}
+	scratch := chi.NewRouteContext()
+	if !m.Router.Match(scratch, r.Method, path) {
 		return nil // route not handled by chi
 	}
-	return ctx
+	return scratch
 }
